@@ -17,11 +17,11 @@ NAN = float("nan")
 _EX = None  # current explorer
 
 
-class Inconclusive(Exception):
-    pass
+class Inconclusive(BaseException):
+    """not an Exception: library code that says `except Exception` (e.g. "is this a number?" probes) must not swallow it"""
 
 
-class PathAbort(Exception):
+class PathAbort(BaseException):
     """Raised to abandon a path (infeasible)."""
 
 
